@@ -476,13 +476,85 @@ func refLeastModel(facts []Pred, rules []Rule) (map[string]bool, bool) {
 	return cur, true
 }
 
+// queryHistories: Authorizer.Query as the public way to ask for the consequences of the
+// current facts and rules — after an earlier Query or Authorize, with facts and rules added
+// in between (the answer must be over the least model of what the authorizer holds NOW).
+func queryHistories(c *Ctx) {
+	r := NewRng(c.Seed ^ 0x71e5)
+	n := 300
+	if c.Thorough {
+		n = 5000
+	}
+	x, y := V("x"), V("y")
+	for i := 0; i < n; i++ {
+		rc := graphProgram(r)
+		facts := permuted(r, dedupFacts(rc.Facts))
+		rules := permuted(r, rc.Rules)
+		a := AuthCase{InMemory: r.Chance(1, 2), MaxFacts: 1000, MaxIter: 100, Ctor: "for"}
+		// some of the facts come with the token
+		k := r.Intn(len(facts) + 1)
+		a.Tokens = [][]Block{{Block{Facts: facts[:k]}}}
+		facts = facts[k:]
+		heads := []Pred{}
+		for _, rl := range rc.Rules {
+			heads = append(heads, rl.Head)
+		}
+		query := func() AuthOp {
+			h := Pick(r, heads)
+			q := Rule{Head: Pred{Name: "answer"}, Body: []Pred{{Name: h.Name}}}
+			for j := range h.Terms {
+				v := []Term{x, y, V("z")}[j%3]
+				q.Head.Terms = append(q.Head.Terms, v)
+				q.Body[0].Terms = append(q.Body[0].Terms, v)
+			}
+			return AuthOp{K: "query", Rule: q}
+		}
+		// first phase: part of the content, then a first Query or Authorize
+		nf, nr := r.Intn(len(facts)+1), r.Intn(len(rules)+1)
+		for _, f := range facts[:nf] {
+			a.Ops = append(a.Ops, AuthOp{K: "addfact", Fact: f})
+		}
+		for _, rl := range rules[:nr] {
+			a.Ops = append(a.Ops, AuthOp{K: "addrule", Rule: rl})
+		}
+		facts, rules = facts[nf:], rules[nr:]
+		if r.Chance(1, 3) {
+			a.Ops = append(a.Ops, AuthOp{K: "authorize"})
+		} else {
+			a.Ops = append(a.Ops, query())
+		}
+		// later phases: one or two additions, then a Query
+		for len(facts)+len(rules) > 0 {
+			for j, m := 0, 1+r.Intn(2); j < m && len(facts)+len(rules) > 0; j++ {
+				if len(rules) == 0 || (len(facts) > 0 && r.Chance(1, 2)) {
+					a.Ops = append(a.Ops, AuthOp{K: "addfact", Fact: facts[0]})
+					facts = facts[1:]
+				} else {
+					a.Ops = append(a.Ops, AuthOp{K: "addrule", Rule: rules[0]})
+					rules = rules[1:]
+				}
+			}
+			a.Ops = append(a.Ops, query())
+		}
+		res, sx := emitAuth(c, "query-history", a)
+		c.Count(fmt.Sprintf("query-history:queries=%d", strings.Count(sx, "(query ")))
+		if strings.Contains(res, "(f ") {
+			c.NonTrivial(sx)
+		}
+		if i < 1 {
+			c.Sample(map[string]string{"case": trunc(sx, 1500), "go": trunc(res, 800)})
+		}
+	}
+}
+
 func runC05(c *Ctx) {
-	c.Rule = "random Datalog programs over a small vocabulary (1-4 predicates incl. default symbols, arities 0-3, constants of every type incl. sets, 2-4 variable names, bodies of 0-4 atoms, repeated variables, self-joins, recursion, unbound head variables, error-free and erroring expressions); odometer shapes (all facts share one name; the only match is the last fact; no match for the last atom); QUERY cases for single-rule application; ODO cases: the order and multiplicity in which Rule.Apply emits index tuples for a given match table, exhaustive over all tables for small shapes and random for up to 5 predicates x 7 facts, against Model/Odometer.combos (proved equal to the lexicographic specification and to solve). Non-trivial = the run derived at least one new fact through a rule with >= 2 body atoms, or a QUERY returned >= 1 instance; distinct = distinct canonical case encodings. Expression-free successful runs are cross-checked against an independent in-harness least-model computation."
+	c.Rule = "random Datalog programs over a small vocabulary (1-4 predicates incl. default symbols, arities 0-3, constants of every type incl. sets, 2-4 variable names, bodies of 0-4 atoms, repeated variables, self-joins, recursion, unbound head variables, error-free and erroring expressions); odometer shapes (all facts share one name; the only match is the last fact; no match for the last atom); QUERY cases for single-rule application; ODO cases: the order and multiplicity in which Rule.Apply emits index tuples for a given match table, exhaustive over all tables for small shapes and random for up to 5 predicates x 7 facts, against Model/Odometer.combos (proved equal to the lexicographic specification and to solve); query histories on an authorizer (graph programs split between the token and the authorizer; Query or Authorize, then facts and rules added one or two at a time with a Query after each: every answer must be over the least model of what the authorizer holds at that moment). Non-trivial = the run derived at least one new fact through a rule with >= 2 body atoms, or a QUERY returned >= 1 instance; distinct = distinct canonical case encodings. Expression-free successful runs are cross-checked against an independent in-harness least-model computation."
 	r := NewRng(c.Seed)
 	n := 4000
 	if c.Thorough {
 		n = 60000
 	}
+	queryHistories(c)
 	for i := 0; i < n; i++ {
 		g := newProgGen(r)
 		var rc runCase
